@@ -25,9 +25,12 @@ N12 str('lit') -> 'lit'; int(<int expression>) -> the expression; bool(<comparis
 N13 x: T = v -> x = v (annotated locals)
 N14 f(a, q=b) with f a package function whose positional parameter list is known -> f(a, b)  (keywords that name
     positional parameters, no hole left, arguments evaluated in the same order)
-N15 if k in d: d[k].append(x) else: d[k] = [x]   ->   if k not in d: d[k] = []   d[k].append(x)   (and the mirrored form)
+N15 if k in d: d[k].append(x) else: d[k] = [x]   ->   if k not in d: d[k] = []   d[k].append(x)   (and the mirrored form;
+    likewise  if k in d: d[k] += 1 else: d[k] = 1   ->   if k not in d: d[k] = 0   d[k] += 1)
 N16 (a := <access path or pure expression>) ... a ...  ->  the expression in place of the binding and of every use
     (a bound only there, uses lexically after it, the operands not written in between)
+N17 x.data.update({k: v, ...}) / x.data.update(k=v, ...) / x.data.update((k, v) for a in it)  ->  x.data[k] = v ... (a loop for the
+    generator form; values must not read the dictionary)
 N5x alias.helper(args) / helper(args), helper a public or foreign-module function whose body is `return <expr>` and
     whose name no rule knows  ->  <expr>, module-level names of the helper's module qualified for the caller
 N8  list(reversed(x)) -> x[::-1];  sorted(d.keys()) / for k in d.keys() / k in d.keys()  ->  without .keys()
@@ -843,10 +846,20 @@ def _n15_dict_init(st):
         return None
     present = isinstance(t.ops[0], ast.In) != neg
     k, d = t.left, t.comparators[0]
-    if not (_pure(k) and _is_path(d)):
+    if not (_pure(k) and _pure(d) and isinstance(d, (ast.Name, ast.Attribute, ast.Subscript))):
         return None
     app, init = (st.body[0], st.orelse[0]) if present else (st.orelse[0], st.body[0])
     slot = ast.dump(ast.Subscript(value=d, slice=k, ctx=ast.Load()))
+    # counters:  if k in d: d[k] += v else: d[k] = v   ->   if k not in d: d[k] = 0;  d[k] += v     (v an int)
+    if isinstance(app, ast.AugAssign) and isinstance(app.op, ast.Add) and isinstance(app.target, ast.Subscript) \
+            and ast.dump(ast.Subscript(value=app.target.value, slice=app.target.slice, ctx=ast.Load())) == slot \
+            and isinstance(init, ast.Assign) and len(init.targets) == 1 and isinstance(init.targets[0], ast.Subscript) \
+            and ast.dump(ast.Subscript(value=init.targets[0].value, slice=init.targets[0].slice, ctx=ast.Load())) == slot \
+            and ast.dump(init.value) == ast.dump(app.value) \
+            and isinstance(app.value, ast.Constant) and isinstance(app.value.value, int) and not isinstance(app.value.value, bool):
+        test = _loc(ast.Compare(left=copy.deepcopy(k), ops=[ast.NotIn()], comparators=[copy.deepcopy(d)]), st)
+        zero = _assign(init.targets[0], ast.Constant(value=0), init)
+        return [_loc(ast.If(test=test, body=[zero], orelse=[]), st), app]
 
     def is_slot(e):
         return isinstance(e, ast.Subscript) and ast.dump(ast.Subscript(value=e.value, slice=e.slice, ctx=ast.Load())) == slot
@@ -872,6 +885,52 @@ def _n15_dict_init(st):
     new_init = _assign(init.targets[0], empty, init)
     guard = _loc(ast.If(test=test, body=[new_init], orelse=[]), st)
     return [guard, app]
+
+
+# --------------------------------------------------------------------------- N17 dict.update with visible keys
+
+def _n17_update(st):
+    """d.update({k: v, ...}) / d.update(k=v, ...) / d.update((k, v) for a in it)  as a statement  ->  d[k] = v ..."""
+    if not (isinstance(st, ast.Expr) and isinstance(st.value, ast.Call) and isinstance(st.value.func, ast.Attribute)
+            and st.value.func.attr == 'update'):
+        return None
+    c = st.value
+    d = c.func.value
+    if not (isinstance(d, (ast.Name, ast.Attribute, ast.Subscript)) and _pure(d)):
+        return None
+    # only node data dictionaries and dictionaries written as such: `<x>.data`
+    if not (isinstance(d, ast.Attribute) and d.attr == 'data'):
+        return None
+    dtxt = ast.unparse(d)
+    pairs = None
+    if len(c.args) == 1 and not c.keywords and isinstance(c.args[0], ast.Dict) and all(k is not None for k in c.args[0].keys):
+        pairs = list(zip(c.args[0].keys, c.args[0].values))
+    elif not c.args and c.keywords and all(k.arg is not None for k in c.keywords):
+        pairs = [(ast.Constant(value=k.arg), k.value) for k in c.keywords]
+    elif len(c.args) == 1 and not c.keywords and isinstance(c.args[0], (ast.GeneratorExp, ast.ListComp)):
+        g = c.args[0]
+        if len(g.generators) == 1 and not g.generators[0].ifs and not g.generators[0].is_async \
+                and isinstance(g.elt, ast.Tuple) and len(g.elt.elts) == 2 and _pure(g.elt) and _pure(g.generators[0].iter) \
+                and dtxt not in ast.unparse(g.elt.elts[1]) and dtxt not in ast.unparse(g.generators[0].iter):
+            tgt = ast.Subscript(value=copy.deepcopy(d), slice=copy.deepcopy(g.elt.elts[0]), ctx=ast.Store())
+            body = _loc(ast.Assign(targets=[tgt], value=copy.deepcopy(g.elt.elts[1])), st)
+            loop = ast.For(target=copy.deepcopy(g.generators[0].target), iter=copy.deepcopy(g.generators[0].iter),
+                           body=[body], orelse=[])
+            for x in ast.walk(loop.target):
+                if isinstance(x, ast.Name):
+                    x.ctx = ast.Store()
+            return [_loc(loop, st)]
+        return None
+    if not pairs:
+        return None
+    # all values are evaluated before any store: sequential stores are the same when no value reads the dictionary
+    if any(not _pure(k) or not _pure(v) or dtxt in ast.unparse(v) for (k, v) in pairs):
+        return None
+    out = []
+    for (k, v) in pairs:
+        tgt = ast.Subscript(value=copy.deepcopy(d), slice=copy.deepcopy(k), ctx=ast.Store())
+        out.append(_loc(ast.Assign(targets=[tgt], value=copy.deepcopy(v)), st))
+    return out
 
 
 # --------------------------------------------------------------------------- N16 assignment expressions
@@ -1045,6 +1104,9 @@ def normalise(tree, ctx=None, mname='', aliases=None, enabled=None):
                 if inl.done:
                     bump('N5')
                     changed = True
+            if on('N17') and _block_rewrite(func, _n17_update):
+                bump('N17')
+                changed = True
             if on('N15') and _block_rewrite(func, _n15_dict_init):
                 bump('N15')
                 changed = True
